@@ -323,13 +323,28 @@ func ignoreOf(world map[string]any) (pats []string, none bool) {
 // config/x.yaml, ../x, ../../x) stay free here; the request's `occ` flag decides whether they are occupied (a leaving
 // read needs something to read, a leaving create needs the place to be free).
 func newSandbox(world map[string]any, canaries bool) (*sandbox, error) {
-	return newSandboxUR(world, canaries, false)
+	return newSandboxUR(world, canaries, false, 0)
+}
+
+// spell writes a directory path in one of the non-canonical forms a configuration file may contain (0 = as is).
+func spell(p string, sp int) string {
+	dir, base := filepath.Dir(p), filepath.Base(p)
+	switch sp {
+	case 1:
+		return p + "/"
+	case 2:
+		return dir + "//" + base
+	case 3:
+		return dir + "/./" + base
+	}
+	return p
 }
 
 // newSandboxUR: with userRoot the requester's account ("admin") is confined to its own file root W/userroot (the
 // world's tree is built there); the server-wide W/root is then OUTSIDE for this client and carries canaries under
 // the names the tree uses.
-func newSandboxUR(world map[string]any, canaries bool, userRoot bool) (*sandbox, error) {
+// sp: how the client's file root (the server-wide FileRoot, or the account's with userRoot) is spelled.
+func newSandboxUR(world map[string]any, canaries bool, userRoot bool, sp int) (*sandbox, error) {
 	// (sandboxes are spread over shard directories: creating and removing thousands of directories in ONE parent
 	// serialises on that directory in the kernel)
 	shard := filepath.Join(sim.ScratchBase(), fmt.Sprintf("fsh-%02d", shardCtr.Add(1)%64))
@@ -355,6 +370,9 @@ func newSandboxUR(world map[string]any, canaries bool, userRoot bool) (*sandbox,
 	}
 	s := &sandbox{outer: outer, w: w, vw: filepath.Base(w.Dir)}
 	treeRoot := w.Root
+	if !userRoot && sp != 0 {
+		w.Srv.Config.FileRoot = spell(w.Root, sp)
+	}
 	if userRoot {
 		treeRoot = filepath.Join(w.Dir, "userroot")
 		if err := os.Mkdir(treeRoot, 0755); err != nil {
@@ -366,7 +384,7 @@ func newSandboxUR(world map[string]any, canaries bool, userRoot bool) (*sandbox,
 			s.close()
 			return nil, fmt.Errorf("no admin account")
 		}
-		acc.FileRoot = treeRoot
+		acc.FileRoot = spell(treeRoot, sp)
 		if err := w.AM.Update(*acc, "admin"); err != nil {
 			s.close()
 			return nil, err
